@@ -988,6 +988,8 @@ class Interp:
     def subscript(self, o, ix, node):
         if hasattr(o, "skv_getitem"):
             return o.skv_getitem(ix)
+        if isinstance(o, Opaque) and getattr(self, "lenient_attrs", False):
+            return Opaque(o.tag + "[..]")
         if isinstance(o, (Arr, SymArr, StoreArr)):
             return o[ix]
         if isinstance(o, (list, tuple)):
@@ -1100,6 +1102,10 @@ class Interp:
                 return Bound(fn, obj)
             if name in c.attrs:
                 return self.eval(c.attrs[name], _class_env(self, c), c.module)
+        if getattr(self, "lenient_attrs", False) and obj is not None:
+            # the rule's stub object does not model this attribute: carry
+            # an opaque value, which can never equal an expected result
+            return Opaque(f"{cls.name}.{name}")
         raise Unsupported(f"attribute {name} not found on {cls.name}", node)
 
     # ------------------------------------------------------------------
@@ -1150,6 +1156,8 @@ class Interp:
             loc = _ChainEnv(f.env)
             loc.update(zip(names, args))
             return self.run_body(f.node.body, loc, f.module)
+        if isinstance(f, Opaque) and getattr(self, "lenient_attrs", False):
+            return Opaque(f.tag + "(..)")
         if isinstance(f, ModRef):
             return self.external(f.name, args, kwargs, node)
         if isinstance(f, PyFunc):
